@@ -17,6 +17,8 @@ A non-sequential outcome is keyed by the site(s) at which conflicting shared wri
 (`shared-_name:array.py:extract_field_value` ...), or `nonsequential:<shape>:<op>` when no known site was involved.
 """
 import collections
+import datetime
+import enum as pyenum
 import json
 import os
 import random
@@ -29,6 +31,7 @@ from typedpy import (AllOf, AnyOf, Array, Deque, Deserializer, ImmutableSet, Int
                      Serializer, Set, String, Structure, Tuple)
 
 from typedpy.structures import Field
+from typedpy import DateField, DateTime, Enum, mappers
 
 from extract import shared_writes as SW
 
@@ -46,6 +49,9 @@ STMT_END = {}       # (abs path, first line of a multi-line statement in a site 
 def _build_tables():
     seen = set()
     for r in ROWS:
+        if r["valueKind"] in ("keyedCache", "publishedIncomplete") and r.get("first_line"):
+            # functions that fill a module-level cache: every line is a yield point in the "sitelines" scope
+            SITEFUNCS.add((os.path.abspath(os.path.join(SW.repo_dir(), r["path"])), r["first_line"]))
         if not r.get("events") or r["valueKind"] not in ("perCall", "ownerName"):
             continue
         path = os.path.join(SW.repo_dir(), r["path"])
@@ -98,7 +104,19 @@ def mk(j):
             return {mk(k): mk(v) for k, v in j["m"]}
         if "d" in j:
             return {k: mk(v) for k, v in j["d"].items()}
+        if "date" in j:
+            return datetime.date.fromisoformat(j["date"])
+        if "datetime" in j:
+            return datetime.datetime.fromisoformat(j["datetime"])
+        if "enum" in j:
+            return Color[j["enum"]]
     return j
+
+
+class Color(pyenum.Enum):
+    RED = 1
+    GREEN = 2
+    BLUE = 3
 
 
 def plain(j):
@@ -111,10 +129,22 @@ def plain(j):
             return {plain(k): plain(v) for k, v in j["m"]}
         if "d" in j:
             return {k: plain(v) for k, v in j["d"].items()}
+        if "date" in j:
+            return j["date"]
+        if "datetime" in j:
+            return datetime.datetime.fromisoformat(j["datetime"]).strftime("%m/%d/%y %H:%M:%S")
+        if "enum" in j:
+            return j["enum"]
     return j
 
 
 def canon(v):
+    if isinstance(v, datetime.datetime):
+        return {"datetime": v.isoformat()}
+    if isinstance(v, datetime.date):
+        return {"date": v.isoformat()}
+    if isinstance(v, pyenum.Enum):
+        return {"enum": v.name}
     if isinstance(v, Structure):
         return {"struct": type(v).__name__,
                 "fields": {k: canon(getattr(v, k, None)) for k in sorted(type(v).get_all_fields_by_name())}}
@@ -279,6 +309,38 @@ def _build_shape(name):
             b = ImmutableSet[it if name == "shared_immset" else _nn()]
             _required = []
         return Shape(name, Im, racy=name == "shared_immset")
+    if name in SER_SHAPES:
+        # SerializableField items (custom deserialization: DateField / DateTime / Enum) inside collections
+        decl = {"ser_map_date": lambda: Map[String, DateField], "ser_map_enumkey": lambda: Map[Enum[Color], DateTime],
+                "ser_set_enum": lambda: Set[Enum[Color]], "ser_set_date": lambda: Set[DateField],
+                "ser_tuple_date": lambda: Tuple[DateField, Integer], "ser_pos_array_date": lambda: Array(items=[DateField, Integer]),
+                "ser_pos_deque_enum": lambda: Deque(items=[Enum[Color], Integer]),
+                "ser_array_date": lambda: Array[DateField]}[name]
+
+        class Sr(Structure):
+            a = decl()
+            n = Integer
+            _required = []
+        return Shape(name, Sr, racy=name == "ser_array_date")
+    if name in COLD_SHAPES:
+        # classes with a non-trivial mapper; rebuilt for EVERY schedule, so every run starts with cold per-class caches
+        class Address(Structure):
+            street_name = String
+            zip_code = Integer
+            _required = []
+            if name == "cold_nested_mappers":
+                _serialization_mapper = mappers.TO_LOWERCASE
+
+        class Person(Structure):
+            first_name = String
+            lucky_numbers = Array[Integer]
+            home_address = Address
+            other_addresses = Array[Address]
+            _required = []
+            _serialization_mapper = {"cold_camel": mappers.TO_CAMELCASE, "cold_lower": mappers.TO_LOWERCASE,
+                                     "cold_dict": {"first_name": "fn", "lucky_numbers": "nums", "home_address": "addr"},
+                                     "cold_nested_mappers": {"first_name": "name", "home_address": "home"}}[name]
+        return Shape(name, Person, racy=False)
     if name == "mapper_struct":
         class Mq(Structure):
             a = Array[Integer(minimum=0)]
@@ -358,12 +420,20 @@ def _build_twin(name):
 _SHAPES = {}
 
 
+def run_shape(name):
+    """the shape a schedule is run on: cold shapes get brand-new classes (nothing about them is cached anywhere yet)"""
+    return _build_shape(name) if name.startswith("cold_") else shape(name)
+
+
 def shape(name):
     if name not in _SHAPES:
         _SHAPES[name] = _build_twin(name) if name.startswith("twin_") else _build_shape(name)
     return _SHAPES[name]
 
 
+SER_SHAPES = ["ser_map_date", "ser_map_enumkey", "ser_set_enum", "ser_set_date", "ser_tuple_date", "ser_pos_array_date",
+              "ser_pos_deque_enum", "ser_array_date"]
+COLD_SHAPES = ["cold_camel", "cold_lower", "cold_dict", "cold_nested_mappers"]
 A_SHAPES = ["array_int", "deque_int", "tuple_homog", "array_two_fields", "set_int", "shared_set", "map_int",
             "shared_map", "pos_array", "pos_deque", "pos_tuple", "shared_pos_array", "shared_pos_deque",
             "shared_pos_tuple"]
@@ -431,8 +501,57 @@ def gen_twin_value(rng, kind, bad):
     raise KeyError(kind)
 
 
+def _date(rng):
+    return {"date": "2021-%02d-%02d" % (1 + _BASE[0], rng.randint(1, 28))}
+
+
+def _enum(rng):
+    return {"enum": rng.choice(["RED", "GREEN", "BLUE"])}
+
+
+def gen_ser_value(rng, sname, field, bad):
+    if field == "n":
+        return _int(rng, 0.0)
+    if sname == "ser_map_date":
+        return {"m": [[k + str(_BASE[0]), _date(rng)] for k in sorted({rng.choice("pqr") for _ in range(rng.randint(1, 2))})]}
+    if sname == "ser_map_enumkey":
+        return {"m": [[{"enum": k}, {"datetime": "2021-%02d-%02dT01:02:03" % (1 + _BASE[0], rng.randint(1, 28))}]
+                      for k in sorted({rng.choice(["RED", "GREEN", "BLUE"]) for _ in range(rng.randint(1, 2))})]}
+    if sname == "ser_set_enum":
+        return {"s": [{"enum": k} for k in sorted({rng.choice(["RED", "GREEN", "BLUE"]) for _ in range(rng.randint(1, 2))})]}
+    if sname == "ser_set_date":
+        return {"s": [{"date": d} for d in sorted({_date(rng)["date"] for _ in range(rng.randint(1, 2))})]}
+    if sname == "ser_tuple_date":
+        return {"t": [_date(rng), _int(rng, 0.0)]}
+    if sname == "ser_pos_array_date":
+        return {"l": [_date(rng), _int(rng, 0.0)]}
+    if sname == "ser_pos_deque_enum":
+        return {"q": [_enum(rng), _int(rng, 0.0)]}
+    if sname == "ser_array_date":
+        return {"l": [_date(rng) for _ in range(rng.randint(1, 3))]}
+    raise KeyError(sname)
+
+
+def gen_cold_value(rng, sname, field):
+    def addr():
+        return {"d": {"street_name": "st" + str(_BASE[0]), "zip_code": _int(rng, 0.0)}}
+    if field == "first_name":
+        return "nm" + str(_BASE[0])
+    if field == "lucky_numbers":
+        return {"l": [_int(rng, 0.0) for _ in range(rng.randint(1, 2))]}
+    if field == "home_address":
+        return addr()
+    if field == "other_addresses":
+        return {"l": [addr() for _ in range(rng.randint(1, 2))]}
+    raise KeyError(field)
+
+
 def gen_value(rng, sname, field, bad=0.2):
     """a JSON value description for `field` of shape `sname`"""
+    if sname in SER_SHAPES:
+        return gen_ser_value(rng, sname, field, bad)
+    if sname in COLD_SHAPES:
+        return gen_cold_value(rng, sname, field)
     if sname.startswith("twin_"):
         return gen_twin_value(rng, shape(sname).extra["vk"][field], bad)
     if sname == "scalar":
@@ -504,18 +623,48 @@ def roster(sname):
 # ------------------------------------------------------------------ operations
 
 
-def build_ops(case):
+def mk_typed(field, j):
+    """like mk(), but a {"d": ...} description for a nested-class field becomes an instance of that class"""
+    ty = getattr(field, "_ty", None)
+    if isinstance(j, dict) and "d" in j and isinstance(ty, type) and issubclass(ty, Structure):
+        fs = ty.get_all_fields_by_name()
+        try:
+            return ty(**{k: mk_typed(fs.get(k), v) for k, v in j["d"].items()})
+        except Exception:       # an invalid nested value: hand the plain dict to the operation, which rejects it itself
+            return mk(j)
+    if isinstance(j, dict) and "l" in j and isinstance(getattr(field, "items", None), Field):
+        return [mk_typed(field.items, x) for x in j["l"]]
+    return mk(j)
+
+
+def mk_kw(cls, kw):
+    fs = cls.get_all_fields_by_name()
+    return {k: mk_typed(fs.get(k), v) for k, v in kw.items()}
+
+
+def reference_doc(case, th):
+    """the document a `deserialize` thread is given when the case asks for the serialized image of its kwargs: produced by
+    serializing a reference instance of a SEPARATE build of the shape (the classes under test stay cold)"""
+    ref = _build_shape(case["shape"]) if case["shape"].startswith("cold_") else shape(case["shape"])
+    try:
+        rc = ref.classes[th.get("cls", 0)]
+        return Serializer(rc(**mk_kw(rc, th["kw"]))).serialize()
+    except Exception:
+        return {k: plain(v) for k, v in th["kw"].items()}
+
+
+def build_ops(case, sh=None):
     """per thread: a zero-argument callable (run under the scheduler); instances for setattr/serialize are pre-built"""
-    sh = shape(case["shape"])
+    sh = sh or shape(case["shape"])
     ops = []
     for th in case["threads"]:
         op = th["op"]
         cls = sh.classes[th.get("cls", 0)]
         if op == "construct":
-            kw = {k: mk(v) for k, v in th["kw"].items()}
+            kw = mk_kw(cls, th["kw"])
             ops.append(lambda kw=kw, cls=cls: cls(**{k: _copy(v) for k, v in kw.items()}))
         elif op == "deserialize":
-            doc = {k: plain(v) for k, v in th["kw"].items()}
+            doc = reference_doc(case, th) if th.get("doc") == "serialized" else {k: plain(v) for k, v in th["kw"].items()}
             ops.append(lambda doc=doc, cls=cls: Deserializer(cls).deserialize(json.loads(json.dumps(doc)), keep_undefined=False))
         elif op == "setattr":
             inst = cls()
@@ -527,7 +676,7 @@ def build_ops(case):
             ops.append(do)
         elif op == "serialize":
             try:
-                inst = cls(**{k: mk(v) for k, v in th["kw"].items()})
+                inst = cls(**mk_kw(cls, th["kw"]))
             except Exception:
                 inst = cls()
             ops.append(lambda inst=inst: {"ser": Serializer(inst).serialize()})
@@ -657,10 +806,7 @@ class Run:
                 if j != tid and j < self.n and not self.done[j]:
                     self.current = j
                     self.cond.notify_all()
-            while self.current != tid:
-                if not self.cond.wait(10):
-                    self.timeout = True
-                    self.current = tid
+            self._wait_turn(tid)
             if evs is not None:
                 for _, letter, tgt, val, key in evs:
                     try:
@@ -678,12 +824,24 @@ class Run:
                     except Exception as e:  # the site's expressions no longer evaluate: the code changed shape
                         self.events.append((tid, f"?{letter}:{type(e).__name__}"))
 
+    def _wait_turn(self, tid):
+        """(holding the condition) block until it is this thread's turn.  A genuine dead stop - the running thread is
+        blocked outside a yield point - shows as NO progress (no new yield point, no thread finished) over several
+        consecutive waits; a stall of the whole process (machine load) does not count."""
+        stale = 0
+        while self.current != tid:
+            seen = (len(self.ylog), sum(self.done))
+            if self.cond.wait(5):
+                stale = 0
+                continue
+            stale = stale + 1 if (len(self.ylog), sum(self.done)) == seen else 0
+            if stale >= 4:
+                self.timeout = True
+                self.current = tid
+
     def body(self, tid):
         with self.cond:
-            while self.current != tid:
-                if not self.cond.wait(10):
-                    self.timeout = True
-                    self.current = tid
+            self._wait_turn(tid)
         sys.settrace(self.tracer(tid))
         try:
             r = outcome_of(self.ops[tid])
@@ -705,7 +863,16 @@ class Run:
         for t in ts:
             t.join(60)
         if self.timeout or any(t.is_alive() for t in ts):
-            raise RuntimeError("scheduler timeout (thread blocked outside a yield point)")
+            import traceback
+            frames = sys._current_frames()
+            where = []
+            for i, t in enumerate(ts):
+                f = frames.get(t.ident)
+                where.append(f"thread {i} alive={t.is_alive()} done={self.done[i]} at " +
+                             (" <- ".join(f"{os.path.basename(fs.filename)}:{fs.lineno}:{fs.name}"
+                                          for fs in reversed(traceback.extract_stack(f)[-6:])) if f else "-"))
+            raise RuntimeError(f"scheduler timeout (thread blocked outside a yield point); current={self.current} "
+                               f"yield points so far={len(self.ylog)}; " + "; ".join(where))
         return self
 
     def conflicts(self):
@@ -723,23 +890,28 @@ class Run:
 
 
 def run_schedule(case, sched, scope):
-    sh = shape(case["shape"])
-    reset_caches(sh)
-    ops = build_ops(case)
-    return Run(ops, sched, scope, sh.cell_ids).run()
+    for attempt in (0, 1):
+        sh = run_shape(case["shape"])
+        reset_caches(sh)
+        ops = build_ops(case, sh)
+        try:
+            return Run(ops, sched, scope, sh.cell_ids).run()
+        except RuntimeError:        # scheduler timeout: once is retried (infrastructure), twice is reported
+            if attempt:
+                raise
 
 
 def sequential(case):
     """oracle: the operations run one after the other, in every order, each order from the fresh class state;
     returns (results with each operation run first = "alone", per thread the set of its results over all orders)"""
     import itertools
-    sh = shape(case["shape"])
     n = len(case["threads"])
     alone = [None] * n
     allowed = [[] for _ in range(n)]
     for perm in itertools.permutations(range(n)):
+        sh = run_shape(case["shape"])
         reset_caches(sh)
-        ops = build_ops(case)
+        ops = build_ops(case, sh)
         for pos, i in enumerate(perm):
             r = outcome_of(ops[i])
             if pos == 0:
@@ -1101,7 +1273,7 @@ def gen_cases(rng, tier, scale=1.0):
                                   {"op": "setattr", "field": fl[1], "value": v1}]})
     for sname in A_SHAPES:
         for _ in range(reps_a):
-            add("A", sname, 2, max_pre=max_pre, cap=120 if quick else 1000)
+            add("A", sname, 2, max_pre=max_pre, cap=120 if quick else 800)
         if sname in ("array_int", "shared_set", "map_int") or not quick:
             add("A", sname, 3, max_pre=2, cap=120 if quick else 600)
     for sname, v0, v1 in CANONICAL_E:
@@ -1113,7 +1285,7 @@ def gen_cases(rng, tier, scale=1.0):
     for sname in E_SHAPES:
         for _ in range(reps_e):
             flat = sname in ("anyof", "oneof", "allof", "notfield") or sname.startswith("shared_")
-            add("E", sname, 2, max_pre=max_pre, cap=100 if quick else 500, **({"yield": "sitelines"} if flat else {}))
+            add("E", sname, 2, max_pre=max_pre, cap=100 if quick else 400, **({"yield": "sitelines"} if flat else {}))
     # twin declarations: every thread on a DIFFERENT declaration (other field / other class) of the same spelling
     def add_twin(stream, sname, n, directed=None, **kw):
         decls = roster(sname)
@@ -1142,7 +1314,7 @@ def gen_cases(rng, tier, scale=1.0):
             # directed: one thread passes an explicit None, the other None / a value the earlier options reject
             add_twin("E", sname, 2, directed=[None, None], max_pre=2, cap=60 if quick else 250, **ykw)
             add_twin("E", sname, 2, directed=[None, 2.5], max_pre=2, cap=60 if quick else 250, **ykw)
-        for _ in range(max(1, int((1 if quick else 2) * scale))):
+        for _ in range(max(1, int((1 if quick else 2) * scale)) if (not quick or rng.random() < 0.5) else 0):
             add_twin("E", sname, 2, max_pre=max_pre, cap=60 if quick else 250, **ykw)
         if not quick and any(k.startswith("opt-") for k in vk):
             add_twin("E", sname, 3, max_pre=2, cap=200, **ykw)
@@ -1151,6 +1323,53 @@ def gen_cases(rng, tier, scale=1.0):
             add_twin("A", sname, 2, max_pre=max_pre, cap=100 if quick else 400)
     for sname in (rng.sample(TWIN_SHAPES, 4) if quick else TWIN_SHAPES):
         add_twin("B", sname, 2, max_pre=max_pre, nsched=20 if quick else 40)
+    # SerializableField items in collections: a constructing / assigning thread against a deserializing one (the
+    # deserializer's pre-pass works on the same shared item Field objects), all on the same field
+    def add_ops(stream, sname, ops, **kw):
+        ths = []
+        for i, op in enumerate(ops):
+            _BASE[0] = i
+            fs = fields_of(sname)
+            if op == "setattr":
+                ths.append({"op": op, "field": "a" if "a" in fs else fs[0], "value": gen_value(rng, sname, "a" if "a" in fs else fs[0])})
+            else:
+                kws = {g: gen_value(rng, sname, g, bad=0.0) for g in fs if g == "a" or rng.random() < 0.7}
+                if sname in COLD_SHAPES:
+                    # the homogeneous-array fields are dealt out to the threads (no two threads validate the same
+                    # Array field: the known extract_field_value race is not in play, these shapes must be sequential)
+                    arrays = [g for g in fs if g in ("lucky_numbers", "other_addresses")]
+                    kws = {g: v for g, v in kws.items() if g not in arrays or arrays.index(g) % len(ops) == i}
+                th = {"op": op, "kw": kws}
+                if op == "deserialize":
+                    th["doc"] = "serialized"
+                ths.append(th)
+        c = {"stream": stream, "shape": sname, "threads": ths, "sseed": rng.randrange(1 << 30)}
+        c.update(kw)
+        cases.append(c)
+
+    for sname in SER_SHAPES:
+        add_ops("E", sname, ["construct", "deserialize"], max_pre=2, cap=80 if quick else 300)
+        if not quick or rng.random() < 0.5:
+            add_ops("E", sname, [rng.choice(["setattr", "construct", "deserialize"]) for _ in range(2)], max_pre=max_pre,
+                    cap=60 if quick else 300)
+        if not quick:
+            add_ops("E", sname, ["deserialize", "deserialize", "construct"], max_pre=2, cap=200)
+    for sname in (rng.sample(SER_SHAPES, 3) if quick else SER_SHAPES):
+        add_ops("B", sname, [rng.choice(["construct", "deserialize", "serialize", "setattr"]) for _ in range(2)],
+                max_pre=max_pre, nsched=20 if quick else 50)
+    # classes with mappers from a COLD start (fresh classes for every schedule): first (de)serializations race
+    cold_e = rng.sample(COLD_SHAPES, 2) if quick else COLD_SHAPES
+    for sname in COLD_SHAPES:
+        mixes = [["deserialize", "deserialize"]] if quick else \
+            [["deserialize", "deserialize"], ["serialize", "deserialize"], ["serialize", "serialize"],
+             ["construct", "deserialize"], ["deserialize", "serialize", "deserialize"]]
+        for ops in mixes:
+            add_ops("B", sname, ops, max_pre=max_pre, nsched=20 if quick else 50)
+        if sname in cold_e:
+            # exhaustively at every line of the functions that fill a module-level cache (translator rows); the
+            # serialization and the deserialization side have separate caches: same-direction pairs
+            add_ops("E", sname, ["deserialize", "deserialize"], max_pre=1 if quick else 2, cap=400 if quick else 200, **{"yield": "sitelines"})
+            add_ops("E", sname, ["serialize", "serialize"], max_pre=1 if quick else 2, cap=400 if quick else 200, **{"yield": "sitelines"})
     # fixed operation mixes (values still random): cold-cache serialization races, scalar assignment, wrappers
     for sname, ops in CANONICAL_B:
         ths = []
@@ -1164,7 +1383,7 @@ def gen_cases(rng, tier, scale=1.0):
         cases.append({"stream": "B", "shape": sname, "threads": ths, "sseed": rng.randrange(1 << 30),
                       "max_pre": max_pre, "nsched": 40 if quick else 150})
     reps_b = max(1, int((1 if quick else 4) * scale))
-    for sname in ALL_SHAPES:
+    for sname in (rng.sample(ALL_SHAPES, 26) if quick else ALL_SHAPES):
         for _ in range(reps_b):
-            add("B", sname, 3 if rng.random() < 0.2 else 2, max_pre=max_pre, nsched=20 if quick else 60)
+            add("B", sname, 3 if rng.random() < 0.2 else 2, max_pre=max_pre, nsched=20 if quick else 50)
     return cases
